@@ -790,6 +790,56 @@ static void stage_scale(void) {
 
 
 /* ---- raw bit writer / reader: every short sequence of field widths --------------------------------------------------- */
+/* every encoder that writes into a carquet_buffer_t, called on a buffer that already holds bytes (as the page writer does: levels first, then values): the bytes already there
+ * stay as they were and the bytes appended are the ones the encoder emits into an empty buffer; the decoders' output pointer at every int16 / int32 alignment */
+static int enc_into(int k, int n, carquet_buffer_t* b, carquet_buffer_t* b2) {
+    static uint8_t vb[128]; static int32_t v32[128]; static int64_t v64[128]; static float vf[128]; static double vd[128]; static carquet_int96_t v96[128]; static uint8_t vfl[128 * 5]; static uint32_t vu[128]; static int16_t vl[128]; static carquet_byte_array_t ba[128]; static char strs[128][8];
+    for (int i = 0; i < n; i++) { vb[i] = (uint8_t)(((i * 7 + 3) >> 1) & 1); v32[i] = (i % 5) * 1000003 - 7; v64[i] = (int64_t)(i % 6) * 10000000019LL - 3; vf[i] = (float)(i % 4) * 1.5f; vd[i] = (double)(i % 7) * -2.25; for (int q = 0; q < 3; q++) v96[i].value[q] = (uint32_t)(i * 3 + q); for (int q = 0; q < 5; q++) vfl[i * 5 + q] = (uint8_t)(i * 5 + q + 1);
+        vu[i] = (uint32_t)((i < 20 ? i % 3 : 2) & 3); vl[i] = (int16_t)(i % 7 == 0 ? 0 : 1); int L = snprintf(strs[i], 8, "s%d", i % 9); ba[i].data = (uint8_t*)strs[i]; ba[i].length = L; }
+    switch (k) {
+    case 0: return carquet_encode_plain_boolean(vb, n, b); case 1: return carquet_encode_plain_int32(v32, n, b); case 2: return carquet_encode_plain_int64(v64, n, b); case 3: return carquet_encode_plain_int96(v96, n, b);
+    case 4: return carquet_encode_plain_float(vf, n, b); case 5: return carquet_encode_plain_double(vd, n, b); case 6: return carquet_encode_plain_byte_array(ba, n, b); case 7: return carquet_encode_plain_fixed_byte_array(vfl, n, 5, b);
+    case 8: return carquet_rle_encode_all(vu, n, 2, b); case 9: return carquet_rle_encode_levels(vl, n, 1, b);
+    case 10: { carquet_rle_encoder_t e; carquet_rle_encoder_init(&e, b, 2); carquet_status_t st = CARQUET_OK; for (int i = 0; i < n && st == CARQUET_OK; i++) st = carquet_rle_encoder_put(&e, vu[i]); if (st == CARQUET_OK) st = carquet_rle_encoder_flush(&e); return st; }
+    case 11: return carquet_delta_length_encode(ba, n, b); case 12: return carquet_delta_strings_encode(ba, n, b);
+    case 13: return carquet_dictionary_encode_int32(v32, n, b, b2); case 14: return carquet_dictionary_encode_int64(v64, n, b, b2); case 15: return carquet_dictionary_encode_float(vf, n, b, b2); case 16: return carquet_dictionary_encode_double(vd, n, b, b2);
+    default: return carquet_dictionary_encode_byte_array(ba, n, b, b2);
+    }
+}
+static void stage_append(void) {
+    static const char* KN[] = { "plain-boolean", "plain-int32", "plain-int64", "plain-int96", "plain-float", "plain-double", "plain-byte-array", "plain-flba", "rle-encode-all", "rle-encode-levels", "rle-encoder", "delta-length", "delta-strings", "dict-int32", "dict-int64", "dict-float", "dict-double", "dict-byte-array" };
+    static const int NN[] = { 0, 1, 2, 7, 8, 9, 17, 64, 100 }; static const int PP[] = { 1, 6, 4093 };
+    mc_stage("encoders.append-to-a-buffer-that-holds-bytes");
+    for (int k = 0; k < 18; k++) for (int ni = 0; ni < 9; ni++) for (int pi = 0; pi < 3; pi++) for (int which = 0; which < (k >= 13 ? 3 : 1); which++) {
+        if (!mc_next()) continue;
+        int n = NN[ni], P = PP[pi]; mc_desc("append:%s;n=%d;prefix=%d;%s", KN[k], n, P, which == 0 ? "first-buffer" : which == 1 ? "second-buffer" : "both"); mc_case_key(mc_mix(0xa99, ((uint64_t)k << 24) | ((uint64_t)ni << 16) | ((uint64_t)pi << 8) | (uint64_t)which)); if (n >= 2) mc_nontrivial();
+        carquet_buffer_t e1, e2, p1, p2; carquet_buffer_init(&e1); carquet_buffer_init(&e2); carquet_buffer_init(&p1); carquet_buffer_init(&p2); uint8_t pre[4096]; for (int i = 0; i < P; i++) pre[i] = (uint8_t)(0xA5 ^ i);
+        bool f1 = which != 1, f2 = k >= 13 && which >= 1; if (f1) carquet_buffer_append(&p1, pre, (size_t)P); if (f2) carquet_buffer_append(&p2, pre, (size_t)P);
+        int s0 = enc_into(k, n, &e1, &e2), s1 = enc_into(k, n, &p1, &p2); char key[96];
+        if (s0 != s1) { snprintf(key, sizeof key, "append.%s.status-differs", KN[k]); FAILF(key, "n=%d prefix=%d: status %d into an empty buffer, %d into a buffer holding %d bytes", n, P, s0, s1, P); }
+        else if (s0 == CARQUET_OK) {
+            size_t o1 = f1 ? (size_t)P : 0, o2 = f2 ? (size_t)P : 0;
+            if ((f1 && (p1.size < o1 || memcmp(p1.data, pre, o1))) || (f2 && (p2.size < o2 || memcmp(p2.data, pre, o2)))) { snprintf(key, sizeof key, "append.%s.existing-bytes-changed", KN[k]); FAILF(key, "n=%d: the %d bytes already in the buffer were modified: %s", n, P, mc_hex(f1 ? p1.data : p2.data, (size_t)(P < 12 ? P : 12), 12)); }
+            else if (p1.size - o1 != e1.size || (e1.size && memcmp(p1.data + o1, e1.data, e1.size)) || (k >= 13 && (p2.size - o2 != e2.size || (e2.size && memcmp(p2.data + o2, e2.data, e2.size))))) { snprintf(key, sizeof key, "append.%s.appended-bytes-differ", KN[k]); FAILF(key, "n=%d prefix=%d: appended %zu bytes %s, into an empty buffer %zu bytes %s", n, P, p1.size - o1, mc_hex(p1.data + o1, p1.size - o1, 16), e1.size, mc_hex(e1.data, e1.size, 16)); }
+        }
+        carquet_buffer_destroy(&e1); carquet_buffer_destroy(&e2); carquet_buffer_destroy(&p1); carquet_buffer_destroy(&p2);
+    }
+    /* level decoder: output pointer at every int16 alignment within 16 bytes (it is only required to be aligned for int16_t) */
+    mc_stage("decoders.output-pointer-alignment");
+    for (int form = 0; form < REF_H_NFORMS; form++) for (int n = 0; n <= 70; n++) for (int off = 0; off < 8; off++) for (int bw = 1; bw <= 3; bw += 2) {
+        if (!mc_next()) continue;
+        mc_desc("align:levels;form=%s;n=%d;bw=%d;output-offset=%d-int16", ref_hybrid_form_name[form], n, bw, off); mc_case_key(mc_mix(0xa9a, ((uint64_t)form << 24) | ((uint64_t)n << 8) | ((uint64_t)off << 4) | (uint64_t)bw)); if (n >= 2) mc_nontrivial();
+        uint32_t v[80]; for (int i = 0; i < n; i++) v[i] = (uint32_t)((i / 11) % 2 ? (i & 1) : (i < 45 ? 1 : 0)) & ((1u << bw) - 1);
+        ref_buf rb; ref_buf_init(&rb); ref_hybrid_encode(v, n, bw, form, &rb); uint8_t* enc = mc_exact(rb.p, rb.n);
+        int16_t* base = aligned_alloc(64, 64 + 2 * 96); int16_t* out = base + off; int16_t* exact = mc_exact(NULL, (size_t)(n ? n : 1) * 2);
+        int64_t g1 = carquet_rle_decode_levels(enc, rb.n, bw, out, n), g2 = carquet_rle_decode_levels(enc, rb.n, bw, exact, n); bool ok = g1 == n && g2 == n;
+        for (int i = 0; ok && i < n; i++) ok = out[i] == (int16_t)v[i] && exact[i] == (int16_t)v[i];
+        if (!ok) FAILF("align.rle-decode-levels.values", "form=%s n=%d bw=%d offset=%d: returned %lld / %lld", ref_hybrid_form_name[form], n, bw, off, (long long)g1, (long long)g2);
+        uint32_t* b32 = aligned_alloc(64, 64 + 4 * 96); uint32_t* o32 = b32 + (off & 3); int64_t g3 = carquet_rle_decode_all(enc, rb.n, bw, o32, n); ok = g3 == n; for (int i = 0; ok && i < n; i++) ok = o32[i] == v[i];
+        if (!ok) FAILF("align.rle-decode-all.values", "form=%s n=%d bw=%d offset=%d: returned %lld", ref_hybrid_form_name[form], n, bw, off & 3, (long long)g3);
+        free(base); free(b32); free(exact); free(enc); ref_buf_free(&rb);
+    }
+}
 static void stage_bitio(void) {
     mc_stage("bitio.writer-reader.all-width-sequences");
     static const int W[] = { 1, 2, 3, 7, 8, 11, 16, 24, 31, 32, 33, 48, 64 }; int L = mc_thorough() ? 6 : 5; int idx[8];
@@ -836,6 +886,7 @@ static void enumerate(void) {
     stage_plain();
     stage_dict();
     stage_scale();
+    stage_append();
 }
 
 int main(int argc, char** argv) { return mc_main(argc, argv, "enc", enumerate); }
